@@ -35,6 +35,14 @@ check("C12", "fault_enumeration", "fault injection at the Read/Write boundary: r
       "Held on every fault point executed (4.8*10^5 quick): every reader offset 0..=len (4 error kinds rotating, 3 schedules) and every writer offset below the fault-free length (2 styles, slice and reader input) for ~1.2*10^3 (input, from, to) combinations whose fault-free run succeeds; short-write patterns; flush.",
       "A reader that fails keeps failing; for YAML output one trailing '---' header is allowed before the prefix rule is applied.",
       "DESIGN.md 3/C12")
+check("C05", "exploration", "runtime monitor: shared logical clock between a packet reader that knows document boundaries and a counting writer, judged at every read() call; counting global allocator for peak live heap",
+      "Held on every stream executed (360 quick / 2400 thorough streams, up to 3*10^3 / 3*10^5 documents, ~2.6*10^7 read calls monitored per quick run): 3 sources x 3 targets x 6 packetisations x explicit/detected x 4 document size classes; lag bound is the property's own (k+2); memory: peak(N) <= peak(N/10) + 128 KiB and peak <= 2 MiB + 128 x largest document.",
+      "The memory constants are about 3x above the worst ratio measured on the pinned tree so that only growth with the stream can trip them; the harness's own buffers are excluded from the count; timing plays no role (logical clock).",
+      "DESIGN.md 3/C05")
+check("C07", "exploration", "runtime differential against the UTF-8 text at translation level; exhaustive enumeration of code units at the re-encoder hook against a std-based reference decoder",
+      "Translation level: 10^4 (quick) generated YAML streams x encodings x BOM x slice/reader x explicit/detected. Re-encoder level: complete enumeration in every run of all UTF-16 units, all 1 048 576 surrogate pairs, all 1 112 064 UTF-32 scalars, both byte orders, BOM/no BOM, with varied input/output buffer sizes (2 variants quick, 11 thorough), plus every surrogate value in each ill-formed context, truncated units and out-of-range UTF-32 values.",
+      "Exhaustive over characters, not over (character, buffer phase) combinations; reference decoder is char::decode_utf16 / char::from_u32.",
+      "DESIGN.md 3/C07")
 
 for pid in ["C01","C03","C04","C05","C06","C07","C08","C09","C10","C11","C12","C13","C14","C15","C16","C17","C18"]:
     if pid not in CHECKS:
